@@ -14,8 +14,8 @@ def run(ctx):
     # lexer self-checks: a family that comes out empty means the lexer drifted from the file syntax (broken check, not a verdict)
     for k, v in counts["consts"].items():
         if v < 1000: raise Broken("lexer for %s found only %d constants" % (k, v))
-    if counts["cython_protos"] < 50 or counts["fortran_protos"] < 100 or counts["header_functions"] < 100: raise Broken("prototype lexer drifted: %s" % counts)
-    ncmp = sum(counts["consts"].values()) + counts["cython_names"] + 5 * counts["family_constants"] + counts["cython_protos"] + counts["fortran_protos"] + counts["header_functions"] + counts["version_files"]
+    if counts["cython_protos"] < 50 or counts["fortran_protos"] < 100 or counts["pascal_protos"] < 120 or counts["header_functions"] < 100: raise Broken("prototype lexer drifted: %s" % counts)
+    ncmp = sum(counts["consts"].values()) + counts["cython_names"] + 5 * counts["family_constants"] + counts["cython_protos"] + counts["fortran_protos"] + counts["pascal_protos"] + counts["header_functions"] + counts["version_files"]
     ctx.evaluations = ncmp
     ctx.samples.append(counts)
     return verdict(ctx, "other", {
